@@ -7,6 +7,7 @@
     k >= 1, max_shift_steps >= 1 and unit-step slices ([op_ok]); validity of
     events holds for every history without that restriction. *)
 From Coq Require Import ZArith List Bool.
+From NS Require Gen.TrS Proofs.TrEquivS.
 From NS Require Import Gen.G17 Model.Events Model.EventsPoly
                        Proofs.Events Proofs.EventsClasses Proofs.EventsPoly.
 Import ListNotations.
@@ -376,3 +377,20 @@ Proof.
   split; [split; [discriminate|constructor]|]. repeat split; reflexivity.
 Qed.
 Print Assumptions C17_nonvacuous.
+
+(** Source-level tie (second kind): SimpleEventSequence.append and SimpleEventSequence.set_length, re-translated
+    from their SOURCE on every run (Gen/TrS.v, harness/vt/pytr.py, stateful-method mode), equal the hand-written
+    state-machine model for every state and every argument (events, end step, start step); the remaining state
+    components are untouched by the model. *)
+Theorem C17_source_append : forall (s : st Z) (e : Z),
+  NS.Gen.TrS.trs_append (events s) (stop s) e =
+  Some (events (fst (append Z (fun _ => true) s e)), stop (fst (append Z (fun _ => true) s e))).
+Proof. exact NS.Proofs.TrEquivS.trs_append_eq. Qed.
+Print Assumptions C17_source_append.
+
+Theorem C17_source_set_length : forall (s : st Z) (n : Z) (from_left : bool),
+  NS.Gen.TrS.trs_set_length (events s) (stop s) (pad s) (start s) n from_left =
+  Some (events (base_set_length Z s n from_left), stop (base_set_length Z s n from_left),
+        start (base_set_length Z s n from_left)).
+Proof. exact NS.Proofs.TrEquivS.trs_set_length_eq. Qed.
+Print Assumptions C17_source_set_length.
